@@ -312,6 +312,12 @@ func (x *chanCtx) open(o *h.Outcome) (gen.StateSpec, *h.Failure) {
 // valid and an invalid signature first) and compares with the reference.
 // It returns whether the candidate was accepted and staged.
 func (x *chanCtx) offer(o *h.Outcome, cur, cand gen.StateSpec, actor int, v *verdict, full bool, peer int, badSig string) (bool, *h.Failure) {
+	return x.offerObj(o, cur, cand, actor, v, full, peer, badSig, nil)
+}
+
+// offerObj is offer with the state object that is handed to Update (nil: a
+// fresh one built from cand).  The object must have the content of cand.
+func (x *chanCtx) offerObj(o *h.Outcome, cur, cand gen.StateSpec, actor int, v *verdict, full bool, peer int, badSig string, useObj *channel.State) (bool, *h.Failure) {
 	before := takeSnap(x.m)
 	inActing := x.m.Phase() == channel.Acting
 	// a disagreement of CheckUpdate is reported after Update had its turn, so
@@ -367,7 +373,11 @@ func (x *chanCtx) offer(o *h.Outcome, cur, cand gen.StateSpec, actor int, v *ver
 	}
 
 	var err error
-	if f := guard("Update", func() { err = x.m.Update(cand.Build(), act) }); f != nil {
+	updObj := useObj
+	if updObj == nil {
+		updObj = cand.Build()
+	}
+	if f := guard("Update", func() { err = x.m.Update(updObj, act) }); f != nil {
 		return false, f
 	}
 	accepted := err == nil
@@ -522,6 +532,37 @@ func runUpdate(c Case, o *h.Outcome) *h.Failure {
 	if f != nil {
 		return f
 	}
+	// a successor of the initial state that passes CheckUpdate now and is
+	// submitted to Update only after the history (object reuse, variant 2)
+	var early *channel.State
+	var earlySpec gen.StateSpec
+	earlyActor := 0
+	checkedObj := func(spec gen.StateSpec, actor int) (*channel.State, *h.Failure) {
+		obj := spec.Build()
+		peer := mod(c.Cand.Peer, x.n)
+		sig, err := signAs(peer, obj)
+		if err != nil {
+			return nil, nil
+		}
+		if f := guard("CheckUpdate", func() { err = x.m.CheckUpdate(obj, channel.Index(uint16(actor)), sig, channel.Index(peer)) }); f != nil {
+			return nil, f
+		}
+		if err != nil {
+			return nil, h.Failf("checkupdate-refuses-valid", "CheckUpdate refused an acceptable candidate with a valid signature: %v", err)
+		}
+		return obj, nil
+	}
+	if c.Cand.Reuse == 2 && x.m.Phase() == channel.Acting {
+		earlySpec = cur
+		earlySpec.Version++
+		if refTransition(x.id, c.App, x.n, cur, earlySpec, earlyActor).acceptable() {
+			obj, f := checkedObj(earlySpec, earlyActor)
+			if f != nil {
+				return f
+			}
+			early = obj
+		}
+	}
 	acceptedSteps := 0
 	for _, st := range c.Steps {
 		if x.m.Phase() != channel.Acting {
@@ -593,6 +634,29 @@ func runUpdate(c Case, o *h.Outcome) *h.Failure {
 	}
 
 	cand, actor := x.buildCand(o, cur)
+	var useObj *channel.State
+	switch {
+	case c.Cand.Reuse == 2 && early != nil:
+		// the object checked before the history is the candidate now
+		cand, actor, useObj = earlySpec, earlyActor, early
+		o.Class("reuse:checked-before-history")
+	case c.Cand.Reuse == 1 && x.m.Phase() == channel.Acting:
+		// an acceptable successor passes CheckUpdate, then the same object is
+		// rewritten in place into the candidate
+		twin := cur
+		twin.Version++
+		if _, encErr := enc(cand.Build()); encErr == nil && refTransition(x.id, c.App, x.n, cur, twin, 0).acceptable() {
+			obj, f := checkedObj(twin, 0)
+			if f != nil {
+				return f
+			}
+			if obj != nil {
+				*obj = *cand.Build()
+				useObj = obj
+				o.Class("reuse:rewritten-after-check")
+			}
+		}
+	}
 	v := refTransition(x.id, c.App, x.n, cur, cand, actor)
 	k := v.k()
 	switch {
@@ -616,7 +680,7 @@ func runUpdate(c Case, o *h.Outcome) *h.Failure {
 		o.Class("verdict:refuse")
 	}
 	nonIdentity := differsBeyondVersion(cur, cand)
-	accepted, f := x.offer(o, cur, cand, actor, v, true, mod(c.Cand.Peer, x.n), c.Cand.BadSig)
+	accepted, f := x.offerObj(o, cur, cand, actor, v, true, mod(c.Cand.Peer, x.n), c.Cand.BadSig, useObj)
 	if f != nil {
 		return f
 	}
